@@ -63,6 +63,7 @@ func (t *Target) intercept(ctx context.Context, req interface{}, info *grpc.Unar
 			_ = json.Unmarshal(b, &msg)
 		}
 	}
+	toks := []string{} // the token part of every value written as "<prefix>~<token>"
 	fields := []E{}
 	names := make([]string, 0, len(msg))
 	for k := range msg {
@@ -78,6 +79,9 @@ func (t *Target) intercept(ctx context.Context, req interface{}, info *grpc.Unar
 		}
 		pre, tok := SplitTok(s)
 		fields = append(fields, E{"f": k, "v": s, "pre": pre, "tok": tok})
+		if pre != "" {
+			toks = append(toks, tok)
+		}
 	}
 	mds := []E{}
 	if md, ok := metadata.FromIncomingContext(ctx); ok {
@@ -92,12 +96,15 @@ func (t *Target) intercept(ctx context.Context, req interface{}, info *grpc.Unar
 			for _, v := range md[k] {
 				pre, tok := SplitTok(v)
 				mds = append(mds, E{"k": k, "v": v, "pre": pre, "tok": tok})
+				if pre != "" {
+					toks = append(toks, tok)
+				}
 			}
 		}
 	}
 	// "/target.TargetService/Hello" -> "target.TargetService.Hello" (the form ammo uses)
 	m := strings.Replace(strings.TrimPrefix(info.FullMethod, "/"), "/", ".", 1)
-	t.rec.Emit(E{"ev": "Recv", "proto": "grpc", "method": m, "fields": fields, "md": mds})
+	t.rec.Emit(E{"ev": "Recv", "proto": "grpc", "method": m, "fields": fields, "md": mds, "toks": toks})
 	return h(ctx, req)
 }
 
